@@ -105,8 +105,21 @@ def _worker(spec):
             sig = SAN_RE.findall(err)
             out['viol'].append((['site:parse@exit'], 'process failed after all cases rc=%s: %s' % (rc, ' | '.join(sig[:3]) or err[-300:]), {'stderr': err[-1500:]})); break
         g = gs[first[0]]
+        if meta.get('timeout'):
+            # the watchdog covers the whole job list and the machine may be loaded: the case that was running is tried once more on its own, with a
+            # limit that depends on its size; only a case that does not finish alone counts as non-termination
+            alone = 120 + len(first[3]) // 2000
+            rc1, recs1, _, meta1, err1 = eg.run_jobs(exe, [first], timeout=alone, env=env)
+            if rc1 == 0 and meta1['end'] and recs1:
+                C['watchdog_expired_on_the_job_list_case_finished_alone'] += 1
+                allrecs += recs1
+                remaining = [j for j in remaining if (j[0], j[1], j[2]) not in done and j is not first]
+                watchdogs = locals().get('watchdogs', 0) + 1
+                if watchdogs > 6: out['incon'].append('the job list keeps running into the watchdog (loaded machine?)'); break
+                continue
+            rc, meta, err = rc1, meta1, err1
         sig = SAN_RE.findall(err) + meta['cvec']
-        kind = 'hang (watchdog %ds)' % spec.get('timeout', 900) if meta.get('timeout') else 'abort rc=%s' % rc
+        kind = 'hang (did not finish alone within %ds)' % (120 + len(first[3]) // 2000) if meta.get('timeout') else 'abort rc=%s' % rc
         d = first[3]
         shown = d if len(d) <= 80 else d[:40] + b'...(%d bytes)' % len(d)
         out['viol'].append(([ 'input:' + common.sha(g.key(), d, str(first[2]))[:16] ], 'grammar %s input %r mode %d in the %s build: %s: %s' % (g.text(), shown, first[2], flavour, kind, ' | '.join(sig[:3]) or err[-300:]),
